@@ -19,3 +19,14 @@ package util
 //@   ensures [C18.merge.cancel_func] result_1 != nil
 //@   ensures [C18.merge.noop_cancel] (ctx1 == background() || ctx2 == background()) ==> result_1 == fnid("noop")
 //@   modifies nothing
+
+// the watcher goroutine of a merged context: when ctx2 is done first, the merged context is cancelled (once) with ctx2's
+// error; when the merged context is done first, nothing is cancelled
+//@ extfunc functype:context.CancelCauseFunc
+//@   havoc
+//@ func MergeContexts$1
+//@   requires ctx != nil && ctx2 != nil && cancel != nil
+//@   ensures [C18.merge.watcher.propagates] sel(1) == 1 ==> ncalls(cancel) == 1 && arg(cancel, 1, 0) == ret(ctx2.Err, 1)
+//@   ensures [C18.merge.watcher.quiet] sel(1) == 0 ==> ncalls(cancel) == 0
+//@   havoc
+//@   modifies *
